@@ -370,6 +370,30 @@ fn main() {
         t
     });
 
+    // ---- S6: structured operands (word limits, products with a power of ten crossing a word limit, digit
+    // patterns at every length, carry chains, all-ones words) against a compact partner set, at scale gaps on
+    // both sides of the u64 power-of-ten limit
+    let st = structured_ints(tier.pick(60, 200), tier.pick(24, 60), run.seed());
+    run.bound("S6_structured_integers", st.len());
+    run.par("S6 structured operands", st.len(), |i| {
+        let mut t = Tally::default();
+        let x = &st[i];
+        let partners: Vec<BigInt> = vec![BigInt::from(1), BigInt::from(-1), BigInt::from(7), pow10(19) - 1, &two64 + 1, x.clone(), -x.clone(), x + 1, -(x - 1i32)];
+        for sign in [1, -1] {
+            for y in partners.iter() {
+                for (sa, sb) in [(0i128, 0i128), (0, 1), (2, 0), (0, 19), (20, 0), (3, -2)] {
+                    let a = Dec { n: x * sign, s: sa };
+                    let b = Dec { n: y.clone(), s: sb };
+                    let (xa, xb) = (bd(&a), bd(&b));
+                    t.states += 1;
+                    t.nontrivial += ds.len() as u64;
+                    check_pair(&run, &ds, &is, &xa, &xb, &a, &b, &mut t);
+                }
+            }
+        }
+        t
+    });
+
     // ---- S5: operands m*2^a*5^b against the shortcut operands (one in several spellings, zero, two, ten) ----
     let ab: Vec<u32> = tier.pick(vec![0, 1, 2, 26, 27, 28, 53, 54, 55, 56, 63, 64, 65, 81, 82, 108, 109, 120], (0..=124).collect());
     let tf = two_five_ints(&ab, &ab, &[1, -3]);
